@@ -11,6 +11,9 @@
 (*               the entries <<t, num>> of next_state_dist(s, a) exactly as listed        *)
 (*   RF[s]       same shape: 1 iff reward(s, a, t) is a finite number                     *)
 (*   I           entries <<t, num>> of initial_state_dist()                              *)
+(*   GN, GD      the discount rate the domain was CONFIGURED with (GN/GD; for a constructor *)
+(*               default: the documented default), DQ = round(obj.discount_rate * DS) the  *)
+(*               discount rate read back from the constructed object, DS = 10^6             *)
 (*   NO, O[a][t] number of observations; entries <<o, num>> of observation_dist(a, t) for *)
 (*               every action of the action list and every listed state (<<>> if not a    *)
 (*               POMDP; o = 0: observation not in the observation list)                   *)
@@ -64,6 +67,10 @@ Detail(m, s) ==
 InitBad(m) ==
   (IF ~RowOK(m, m.I) THEN {"initial-not-normalised"} ELSE {})
   \cup (IF 0 \in InitSupp(m) THEN {"initial-outside-state-list"} ELSE {})
+\* the constructed model carries the configured discount rate: DQ is within half a unit (+ float noise)
+\* of GN/GD * DS, i.e. |DQ * GD - GN * DS| < GD (all products stay below 2^31: GD <= 1000, DS = 10^6)
+DiscountOK(m) == AbsI(m.DQ * m.GD - m.GN * m.DS) < m.GD
+ModelBad(m) == IF DiscountOK(m) THEN {} ELSE {"discount-rate-not-the-configured-one"}
 RECURSIVE Closure(_, _, _)
 Closure(m, cur_, k) ==
   IF k = 0 THEN cur_
@@ -95,7 +102,7 @@ Spec == Init /\ [][Next]_vars
 
 \* ------------------------------------------------------------------ verdicts
 Summary(m) ==
-  [iid |-> iid, kind |-> "summary", tag |-> m.tag, initbad |-> InitBad(m), nreach |-> Cardinality(Reach(m) \ {0}),
+  [iid |-> iid, kind |-> "summary", tag |-> m.tag, initbad |-> InitBad(m), modelbad |-> ModelBad(m), nreach |-> Cardinality(Reach(m) \ {0}),
    ghost |-> GhostOutside(m), zero |-> ZeroOutside(m), zeroobs |-> ZeroObsOutside(m),
    unreached |-> St(m) \ Reach(m)]
 First(m) == CHOOSE s \in InitSupp(m) : \A t \in InitSupp(m) : s <= t
@@ -108,6 +115,7 @@ Emit ==
 \* the same clauses as TLC invariants (violated = some instance of the batch fails the clause)
 WellFormedState == Bad(M, cur) = {}
 WellFormedInit  == InitBad(M) = {}
+WellFormedModel == ModelBad(M) = {}
 \* design-level: the walk stays inside 0..N and only ever stands outside the list after a step that the
 \* closure also sees
 TypeOK == cur \in 0..M.N /\ (M.all = 0 => cur \in Reach(M))
